@@ -4,9 +4,10 @@ package main
 // error in bounded time (no proof, no panic, no hang).
 
 import (
-	"os"
+	"crypto/sha512"
 	"fmt"
 	"math/big"
+	"os"
 	"strings"
 	"time"
 
@@ -107,6 +108,7 @@ func c03Specs() []progSpec {
 		{"commit2-independent", func() frontend.Circuit { return &cm2i{} }, func(q *big.Int) frontend.Circuit { return &cm2i{X: 3, W: 5, P1: 9, P2: 7} }, func(q *big.Int) frontend.Circuit { return &cm2i{X: 3, W: 5, P1: 10, P2: 7} }},
 		{"commit3", func() frontend.Circuit { return &cm3{} }, func(q *big.Int) frontend.Circuit { return &cm3{X: 2, W: 5, V: 11, P1: 4, P2: 6} }, func(q *big.Int) frontend.Circuit { return &cm3{X: 2, W: 5, V: 11, P1: 5, P2: 6} }},
 		{"commit3-second-only", func() frontend.Circuit { return &cm3b{} }, func(q *big.Int) frontend.Circuit { return &cm3b{X: 2, W: 5, V: 11, P1: 4} }, func(q *big.Int) frontend.Circuit { return &cm3b{X: 2, W: 5, V: 11, P1: 5} }},
+		{"commit4-crossing", func() frontend.Circuit { return &cm4x{} }, func(q *big.Int) frontend.Circuit { return &cm4x{X: 2, Y: 5, Z: 11, W: 13, P1: 4} }, func(q *big.Int) frontend.Circuit { return &cm4x{X: 2, Y: 5, Z: 11, W: 13, P1: 5} }},
 		{"hints+wide-level", func() frontend.Circuit { return &hintyCircuit{} }, func(q *big.Int) frontend.Circuit { return &hintyCircuit{X: 300, Y: 7, Z: 300*7 + 44} }, func(q *big.Int) frontend.Circuit { return &hintyCircuit{X: 300, Y: 7, Z: 1} }},
 	}
 	for _, n := range []int{1, 2, 3, 4, 5, 6, 7, 14, 15} { // domain sizes 2..16 incl. the tiny-domain rule of the PLONK prover
@@ -134,6 +136,7 @@ func runC03(args []string) int {
 	optsets := []optset{
 		{"default", nil, nil},
 		{"hash-to-field=keccak", []backend.ProverOption{backend.WithProverHashToFieldFunction(sha3.NewLegacyKeccak256())}, []backend.VerifierOption{backend.WithVerifierHashToFieldFunction(sha3.NewLegacyKeccak256())}},
+		{"hash-to-field=sha512", []backend.ProverOption{backend.WithProverHashToFieldFunction(sha512.New())}, []backend.VerifierOption{backend.WithVerifierHashToFieldFunction(sha512.New())}}, // digest wider than a field element
 		{"challenge-hash=keccak", []backend.ProverOption{backend.WithProverChallengeHashFunction(sha3.NewLegacyKeccak256())}, []backend.VerifierOption{backend.WithVerifierChallengeHashFunction(sha3.NewLegacyKeccak256())}},
 		{"kzg-fold-hash=keccak", []backend.ProverOption{backend.WithProverKZGFoldingHashFunction(sha3.NewLegacyKeccak256())}, []backend.VerifierOption{backend.WithVerifierKZGFoldingHashFunction(sha3.NewLegacyKeccak256())}},
 		{"statistical-zk", []backend.ProverOption{backend.WithStatisticalZeroKnowledge()}, nil},
@@ -237,7 +240,7 @@ func runC03(args []string) int {
 			ci++
 			for _, id := range ids {
 				oss := optsets[:1]
-				if (id == ecc.BN254 && (si < 8 || o.Thorough())) || (os.Getenv("VERIF_ALL_CURVES") != "" && si < 3) {
+				if (id == ecc.BN254 && (si < 9 || o.Thorough())) || (os.Getenv("VERIF_ALL_CURVES") != "" && si < 3) {
 					oss = optsets
 				}
 				for _, os := range oss {
